@@ -31,7 +31,7 @@ theorem cur_live : Live Skeleton.current :=
   { hyg := cur_hyg, nochan := cur_nochanclose, wakes := cur_wakes, outside := by decide,
     selDone := by decide, selCtx := by decide, recovers := by decide, setsErr := by decide,
     cap := by decide, selRes := by decide, selLink := by decide, wfrees := by decide,
-    skipDec := by decide, pubChecksClosed := by decide, invokeOutside := by decide, panicSites := by decide, freeNeverWaits := by decide }
+    skipDec := by decide, pubChecksClosed := by decide, invokeOutside := by decide, panicSites := by decide, freeNeverWaits := by decide, storesCreated := by decide }
 
 theorem cur_only_closed : Skeleton.current.bcReceiveErrorsOnlyClosed = true := cur_wakes.onlyClosed
 
@@ -48,6 +48,11 @@ def skLockAcrossClosure : Skeleton := { Skeleton.current with clInvokeOutsideLoc
     (`if err := ctx.Err(); err != nil { return nil, err }` after the closed check).  Used by the witness
     theorems of C04 / C16 that show what the fact `bcReceiveErrorsOnlyClosed` protects against. -/
 def skRefusesDoneCtx : Skeleton := { Skeleton.current with bcReceiveErrorsOnlyClosed := false }
+
+/-- the current tree with ONE fact flipped: what `registerClosure` stores is a wrapper that serialises invocations of
+    the closure with a mutex of its own ("callbacks mutate captured locals, the remote may invoke them from several
+    goroutines"). Used by the witness theorems of C02 / C11. -/
+def skSerialisedClosure : Skeleton := { Skeleton.current with clStoresCreatedClosure := false }
 
 /-- the current tree with ONE fact flipped: the release function returned by `registerClosure` WAITS for running
     invocations of the closure (a `WaitGroup`: "the caller's function is never still executing after the closure has
